@@ -31,12 +31,22 @@ CHAIN_MODULES = ['convolve.convolve', 'convolve.monochromatic', 'models', 'fit',
 def run(ctx):
     repo = ctx.repo
     # hop 1: names <-> files, rows of the convolved tables
-    sw, sr = repo.func('sed.sed', 'SED.write'), repo.func('sed.sed', 'SED.read')
-    fitsmodel.check_pair(ctx, 'PERM-8', sw, sr, {'name': 'name'}, where)
-    cw, cr = repo.func('sed.cube', 'BaseCube.write'), repo.func('sed.cube', 'BaseCube.read')
-    fitsmodel.check_pair(ctx, 'PERM-8', cw, cr, {'names': 'names'}, where)
-    fw, fr = repo.func('convolved_fluxes.convolved_fluxes', 'ConvolvedFluxes.write'), repo.func('convolved_fluxes.convolved_fluxes', 'ConvolvedFluxes.read')
-    fitsmodel.check_pair(ctx, 'PERM-8', fw, fr, {'model_names': 'model_names', 'flux': 'flux'}, where)
+    from .. import roundtrip
+    d_sed, d_cube, d_conv = roundtrip.check_sed(ctx, 'PERM-8', 'PERM-8'), roundtrip.check_cube(ctx, 'PERM-8', 'PERM-8'), roundtrip.check_conv(ctx, 'PERM-8')
+    if not (d_sed and d_cube and d_conv):
+        sus = roundtrip.SuspectCtx(ctx, 'the round trip was not decided by interpretation and the syntactic rule, which knows one spelling only, reports')
+        try:
+            if not d_sed:
+                sw, sr = repo.func('sed.sed', 'SED.write'), repo.func('sed.sed', 'SED.read')
+                fitsmodel.check_pair(sus, 'PERM-8', sw, sr, {'name': 'name'}, where)
+            if not d_cube:
+                cw, cr = repo.func('sed.cube', 'BaseCube.write'), repo.func('sed.cube', 'BaseCube.read')
+                fitsmodel.check_pair(sus, 'PERM-8', cw, cr, {'names': 'names'}, where)
+            if not d_conv:
+                fw, fr = repo.func('convolved_fluxes.convolved_fluxes', 'ConvolvedFluxes.write'), repo.func('convolved_fluxes.convolved_fluxes', 'ConvolvedFluxes.read')
+                fitsmodel.check_pair(sus, 'PERM-8', fw, fr, {'model_names': 'model_names', 'flux': 'flux'}, where)
+        except AnalysisError as e:
+            ctx.undecided('PERM-8', 'syntactic fall-back', 'sedfitter/sed', 'structure not recognised: %s' % e)
     c07.check_drivers(ctx)
     c07.check_sort_to_match(ctx)
     c07.check_shared_buffers(ctx)
